@@ -340,6 +340,21 @@ fn nontrivial(t: &Target, bytes: &[u8], out: &Outcome) -> (bool, &'static str) {
     }
 }
 
+/// The engine's panic signature with the part of a std message that quotes the *input* removed ("byte index 256 is not a
+/// char boundary; it is inside 'x' (bytes ..) of `<the text>`"): the key must not depend on the content of the file.
+fn stable_key(sig: &str) -> String {
+    let mut parts: Vec<String> = sig.split('|').map(str::to_string).collect();
+    if parts.len() >= 5 {
+        let m = &mut parts[3];
+        for pat in ["; it is inside", " of `", " when slicing `"] {
+            if let Some(i) = m.find(pat) {
+                m.truncate(i);
+            }
+        }
+    }
+    parts.join("|")
+}
+
 fn check(c: &Case) -> Verdict {
     let t = target(c);
     let bytes = materialise(c);
@@ -359,8 +374,11 @@ fn check(c: &Case) -> Verdict {
         }
         let _ = std::fs::write(format!("{path}.txt"), d);
     }
-    // Ok(_) and Err(_) are both fine; a panic unwinds into the engine's guard (key = panic signature), an abort kills the worker
-    let out = run(t, &bytes);
+    // Ok(_) and Err(_) are both fine; a panic is a violation keyed by its panic signature, an abort kills the worker
+    let out = match icyv::panics::guarded(|| run(t, &bytes)) {
+        Ok(o) => o,
+        Err((sig, msg)) => return Verdict::fail(stable_key(&sig), format!("{} [{} bytes as {}]", msg.chars().take(300).collect::<String>(), bytes.len(), t.name)),
+    };
     let (nt, class) = nontrivial(t, &bytes, &out);
     // an2..an9 are one alias list of the Renegade loader: one histogram row
     let label = if t.name.len() == 3 && t.name.starts_with("an") && t.name != "an1" && t.name != "ans" { "an2-9" } else { t.name };
